@@ -89,7 +89,7 @@ func (s *Sched) newTaskLocked(name string, class int) *task {
 	t := &task{id: len(s.tasks) + 1, name: name, class: class, wake: make(chan struct{}, 1)}
 	if s.strategy == StratPCT {
 		// priorities are drawn by the spawning task, which is the released one
-		t.prio = 1 + s.r.T.Intn(1000, "prio")
+		t.prio = 1 + s.r.T.SchedIntn(1000, "prio")
 	}
 	s.tasks = append(s.tasks, t)
 	return t
@@ -99,14 +99,14 @@ func (s *Sched) newTaskLocked(name string, class int) *task {
 // initial tasks with s.Go and then calls s.Loop().
 func (r *Run) Bubble(t *testing.T, maxSteps int, f func(s *Sched)) {
 	s := &Sched{r: r, byGid: map[uint64]*task{}, MaxSteps: maxSteps, changeAt: map[int]bool{}}
-	s.strategy = r.T.Intn(nStrat, "strategy")
+	s.strategy = r.T.SchedIntn(nStrat, "strategy")
 	switch s.strategy {
 	case StratStarve:
-		s.starve = r.T.Intn(3, "starve-class")
+		s.starve = r.T.SchedIntn(3, "starve-class")
 	case StratPCT:
-		n := 1 + r.T.Intn(3, "pct-d")
+		n := 1 + r.T.SchedIntn(3, "pct-d")
 		for i := 0; i < n; i++ {
-			s.changeAt[r.T.Intn(400, "pct-at")] = true
+			s.changeAt[r.T.SchedIntn(400, "pct-at")] = true
 		}
 	}
 	r.Info["strategy"] = stratNames[s.strategy]
@@ -315,7 +315,7 @@ func (s *Sched) choose(parked []*task, step int) *task {
 		if s.last != nil {
 			for _, t := range parked {
 				if t == s.last {
-					if T.Intn(8, "sticky") < 7 {
+					if T.SchedIntn(8, "sticky") < 7 {
 						return t
 					}
 					break
@@ -338,7 +338,7 @@ func (s *Sched) choose(parked []*task, step int) *task {
 				rest = append(rest, t)
 			}
 		}
-		if len(rest) > 0 && len(rest) < n && T.Intn(16, "starve-x") < 15 {
+		if len(rest) > 0 && len(rest) < n && T.SchedIntn(16, "starve-x") < 15 {
 			parked, n = rest, len(rest)
 		}
 	case StratPCT:
@@ -356,7 +356,7 @@ func (s *Sched) choose(parked []*task, step int) *task {
 	if n == 1 {
 		return parked[0]
 	}
-	return parked[T.Intn(n, "sched")]
+	return parked[T.SchedIntn(n, "sched")]
 }
 
 // ---- entry points for instrumented code (no-ops without an active bubble) ----
